@@ -99,6 +99,11 @@ def run_case(c):
     put("gaussmax", lambda: mimax("gauss"))
     put("pure0", lambda: enc.arr(CouplingAnalysisPurePython(data.copy(), silence_level=3)
                                  .cross_correlation(tau_max=0, lag_mode="all")[0]))
+    # the pure-Python lag functions (its own, documented window: the central T - 2 tau_max samples of series i
+    # against series j shifted by -tau_max .. tau_max); compared where that window has at least 3 samples
+    if T - 2 * tm >= 3:
+        put("pure_all", lambda: enc.arr(CouplingAnalysisPurePython(data.copy(), silence_level=3)
+                                        .cross_correlation(tau_max=tm, lag_mode="all")))
     put("spearman", lambda: enc.arr(_climate("SpearmanClimateNetwork", data).similarity_measure()))
     put("tsonis", lambda: enc.arr(_climate("TsonisClimateNetwork", data).correlation()))
     put("partial", lambda: enc.arr(_climate("PartialCorrelationClimateNetwork", data).similarity_measure()))
@@ -146,6 +151,7 @@ def run_case(c):
             o[key + "_anom"] = o.get(key, [])
     for key in ("maxv2", "maxl2", "all2"):
         o.setdefault(key, o.get({"maxv2": "maxv", "maxl2": "maxl", "all2": "all"}[key], []))
+    o.setdefault("pure_all", [])
     for key in ("all", "maxv", "maxl", "symv", "syml", "gauss", "bin2", "bin2max", "gaussmax", "pure0", "tsonis", "spearman", "all_aff", "all_perm",
                 "all_big", "pure0_big"):
         o.setdefault(key, [])
